@@ -10,23 +10,24 @@ PROP = {
              "(halted_step) a suspended step delivers exactly 4 clocks and charges one cycle; (catchup_before_sample, _block) the "
              "state handed to handle_interrupt carries the bus returned by the device catch-up of the same step; (op_clocks_ge_4, "
              "progress, progress_blocks) every decoder clock entry is >= 4 and every step advances device time by >= 4 clocks; "
-             "(step_at_most_56) an instruction-stepped step delivers at most 56 clocks; (run_frame_terminates_partial) ASSUMING the "
-             "LCD mode read by run_frame is the C14 closed-form schedule at offset + delivered clocks, both polling loops of "
-             "run_frame end with fewer than 2 x 70224 + 56 clocks delivered, in the instruction-stepped build; "
-             "(run_frame_terminates_blocks_partial) the same under block stepping ASSUMING additionally that no block delivers more "
-             "than 4560 clocks - which the code does not guarantee (known finding). The model is tied to emulator.rs by three "
+             "(step_at_most_56) an instruction-stepped step delivers at most 56 clocks; (crosses_frame, run_frame_terminates_partial, "
+             "_update, _blocks) Core::run_frame (which, since /repo c28667b, waits for the LCD's count of completed frames to change) "
+             "returns within one frame period plus one step under instruction stepping AND block stepping with NO bound on the block "
+             "length, ASSUMING the frame count is the number of whole 70224-clock periods of the LCD clock (C14: exactly one VBlank "
+             "entry per period however time is batched; the composition of the device function with the LCD model is not done). "
+             "The model is tied to emulator.rs by three "
              "streams of generated programs on the real Core::update: c09 (instruction-stepped) checks from the implementation's "
              "outputs alone that each step's clocks (timer hook) are 4 x (SM83 cycle count of the instruction at the observed PC "
              "under the observed flags + 5 after a dispatch, 1 when suspended), >= 4, that LY follows the LCD schedule of the same "
              "clock total, then the model replay with the C13 timer model and the OAM-DMA model as devices; c09.blocks (jit build) "
-             "checks clocks = 4 x last_block_cycle_length per block and the block model; c09.frame (jit build) re-runs run_frame's "
-             "loops with a step cap on NOP-sled blocks of parametrised length.",
+             "checks clocks = 4 x last_block_cycle_length per block and the block model; c09.frame (jit build) runs the REAL Core::run_frame twice "
+             "in a child process under an alarm on NOP-sled blocks of parametrised length (incl. 1463- and 2926-cycle blocks that "
+             "divide the frame period): each call must return after at most two completed frames.",
     "note": "Trusted: Lean kernel, harness/driver, hand-written models (Core, Cpu/Interp of C05/C06, Bus of C10, Timer of C13) "
             "validated by differential runs only. The ghost counters exist only in the model: they are tied by comparing "
             "`delivered mod 65536` with the timer's cycle_count hook after every step (programs never write DIV). The jit-build "
             "model uses the interpreter as block engine (engine independence is C04). Wall-clock pacing is absent from the code "
-            "and not covered. KNOWN: under block stepping a block of 1140 machine cycles or more whose length divides the frame "
-            "(e.g. 1459 NOPs + JP = 17556/12) steps over every VBlank window and run_frame never returns; shown by c09.frame.",
+            "and not covered. The former non-termination of run_frame under block stepping was repaired (fixed: c28667b).",
     "technique": "Lean 4 proofs (invariant by induction over step lists for an arbitrary device function; case analysis over all Op "
                  "variants for cycle monotonicity; arithmetic over the C14 closed-form schedule for the polling loops) + generated "
                  "differential runs of whole programs in both builds",
@@ -39,8 +40,7 @@ PROP = {
     "rule": "quick 200 / thorough 6000 generated programs (1-3 subroutines, prologue programming TMA/TIMA/TAC/IE, 3-16 blocks out of "
             "13 kinds, HALT/STOP/NOP tail loop) x 1000 / 1500 steps, per build; c09.frame: 7 fixed + 12 / 60 random (first block, "
             "loop block) lengths. Non-trivial = some step was suspended or ended in a dispatch (frame: a block longer than a line).",
-    "assumptions": ["run_frame_terminates*_partial: the STAT mode sampled by run_frame is LcdSpec.sched (C14 closed form) at "
-                    "offset + delivered clocks - the composition of the device function with the LCD model is not done",
-                    "run_frame_terminates_blocks_partial: no block step delivers more than 4560 clocks (false in general: known finding)",
+    "assumptions": ["run_frame_terminates_*: the LCD's frame counter equals (offset + delivered clocks) / 70224 - the composition of the "
+                    "device function with the LCD model of C14 is not done",
                     "registers.cycles is a u32 that does not overflow within a step (a block would need 2^32 cycles)"],
 }
